@@ -101,10 +101,6 @@ func TestRace(t *testing.T) {
 		}
 	}
 	_ = before
-	// the package-level zero string is still pristine
-	z := rosed.VerifGemZero()
-	_, _, isNil, ends := rosed.VerifCache(z)
-	if isNil || len(ends) != 0 || len(rosed.VerifRawRunes(z)) != 0 {
-		t.Errorf("gem.Zero was modified: nil=%v ends=%v", isNil, ends)
-	}
+	// the package-level zero string is still pristine (needs the accessors into internal/gem)
+	checkZeroPristine(t)
 }
